@@ -246,3 +246,59 @@ void h_wfile_close(void) {
   ldb_wfile_close(file);
   CANARY();
 }
+
+/* ---------------------------------------------------- env.create / env.writefile */
+/* ldb_truncfile_create: OK => a fresh file object for the descriptor returned by open(2), empty buffer, manifest flag from
+   the base name; failure => nothing is handed out.  (open(2) returns g_dirfd in this model; the units below use it as THE fd.) */
+unsigned long g_unlink_total, g_created;
+void h_truncfile_create(void) {
+  ldb_wfile_t *file = NULL;
+  char name[16];
+  int is_man = nondet_int() ? 1 : 0, rc;
+  /* "/d/MANIFEST-1" or "/d/000005.log" */
+  name[0] = '/'; name[1] = 'd'; name[2] = '/';
+  if (is_man) { name[3] = 'M'; name[4] = 'A'; name[5] = 'N'; name[6] = 'I'; name[7] = 'F'; name[8] = 'E'; name[9] = 'S'; name[10] = 'T'; name[11] = '-'; name[12] = '1'; name[13] = 0; }
+  else { name[3] = '0'; name[4] = '5'; name[5] = '.'; name[6] = 'l'; name[7] = 'o'; name[8] = 'g'; name[9] = 0; }
+  g_dirfd = nondet_int(); __CPROVER_assume(g_dirfd >= 0);
+  rc = ldb_truncfile_create(name, &file);
+  if (rc == LDB_OK) {
+    CHECK(file != NULL && file->fd == g_dirfd && file->pos == 0, "create OK: a file object for the opened descriptor with an empty user-space buffer");
+    CHECK(file->manifest == is_man, "create: a file whose base name starts with MANIFEST gets directory syncs (manifest flag)");
+    CHECK(!is_man || (file->dirname != NULL && file->dirname[0] == '/' && file->dirname[1] == 'd' && file->dirname[2] == 0), "create: a MANIFEST remembers its directory for the directory fsync");
+  } else {
+    CHECK(file == NULL, "create failed: no file object is handed out");
+  }
+  CANARY();
+}
+
+/* ldb_write_file with the file operations used through their contracts */
+int c_truncfile_create(const char *filename, ldb_wfile_t **file)
+__CPROVER_requires(__CPROVER_w_ok(file, sizeof(*file)) && g_fd >= 0 && g_dirfd >= 0)
+__CPROVER_assigns(*file, g_errno, g_created)
+__CPROVER_ensures(__CPROVER_return_value == LDB_OK ==> (__CPROVER_is_fresh(*file, sizeof(ldb_wfile_t)) && (*file)->fd == g_fd && (*file)->pos == 0 && (*file)->dirname == NULL &&
+                                                       (*file)->manifest == 0 && g_created == __CPROVER_old(g_created) + 1))
+__CPROVER_ensures(__CPROVER_return_value != LDB_OK ==> (*file == __CPROVER_old(*file) && g_created == __CPROVER_old(g_created)))
+;
+void h_write_file(void) {
+  ldb_slice_t data;
+  char name[8];
+  int sync = nondet_int() ? 1 : 0, rc;
+  size_t n = nondet_size();
+  unsigned long w0, s0, c0, u0, cr0;
+  name[0] = '/'; name[1] = 'd'; name[2] = '/'; name[3] = 't'; name[4] = 0;
+  __CPROVER_assume(n <= ((size_t)1 << 40));
+  data.data = malloc(n); data.size = n; data.alloc = 0; __CPROVER_assume(data.data != NULL);
+  __CPROVER_assume(g_fd >= 0 && g_dirfd >= 0 && g_dirfd != g_fd && g_fsync_eintr_budget <= 2 && OFFS_OK && CLOCK_RI);
+  g_written = 0; g_synced = 0;
+  w0 = g_wfail; s0 = g_fsync_ok; c0 = g_close_calls; u0 = g_unlink_calls; cr0 = g_created;
+  rc = ldb_write_file(name, &data, sync);
+  if (rc == LDB_OK) {
+    CHECK(g_created == cr0 + 1 && g_written == n && g_wfail == w0, "write_file OK: the file was created and every byte of the data was handed to write(2)");
+    CHECK(!sync || (g_fsync_ok == s0 + 1 && g_synced == n && g_t_fsync > g_t_write), "write_file OK with sync: fsynced after the last write");
+    CHECK(g_close_calls == c0 + 1 && g_close_ok >= 1 && (!sync || g_t_close > g_t_fsync), "write_file OK: closed (after the sync) and the close succeeded");
+    CHECK(g_unlink_calls == u0, "write_file OK: nothing removed");
+  } else {
+    CHECK(g_created == cr0 || g_unlink_calls == u0 + 1, "write_file failed after creating the file: the partial file is removed");
+  }
+  CANARY();
+}
